@@ -23,6 +23,7 @@ import (
 	"fmt"
 	"sort"
 
+	"github.com/ontio/ontology-crypto/keypair"
 	"github.com/polynetwork/poly/common"
 	"github.com/polynetwork/poly/core/signature"
 	"github.com/polynetwork/poly/core/types"
@@ -195,7 +196,7 @@ func validSigners(tx *types.Transaction) map[string]bool {
 		for _, k := range sg.PubKeys {
 			for _, sd := range sg.SigData {
 				if signature.Verify(k, h[:], sd) == nil {
-					out[hex.EncodeToString(polyenvSer(k))] = true
+					out[hex.EncodeToString(keypair.SerializePublicKey(k))] = true
 					break
 				}
 			}
